@@ -1,7 +1,7 @@
 """C06: the capabilities-exchange gate of a connection."""
-from pyvc.spec import REG as R, Raise
+from pyvc.spec import REG as R, Raise, Clause
 from . import node, c13  # noqa
-from .node import CONNECTING, CONNECTED, READY, READY_WAITING_DWA, DISCONNECTING, CLOSING, CLOSED
+from .node import CONNECTING, CONNECTED, READY, READY_WAITING_DWA, DISCONNECTING, CLOSING, CLOSED, R_CERREJ as R_CER_REJECTED
 
 R.model("PeerConnection", fields={"g_handled": "Seq[Message]"})
 
@@ -29,3 +29,240 @@ R.contract("PeerConnection.__dispatch_message#gate", params={"self": "PeerConnec
                     ("otherwise-handed-to-the-node-exactly-once",
                      "self.g_handled == old(self.g_handled) or self.g_handled == old(self.g_handled) + [msg]")],
            raises=[], ghost_modifies=["self.g_handled"], props=["C06"])
+
+
+# ---- the outcome cases of the capabilities exchange --------------------------------------------------------------
+# The list-valued capabilities attributes of CER/CEA (set to [] by the generated __post_init__, filled by
+# assign_attr_from_defs) are modelled as typed fields of the two command classes; same-named scalar attributes of other
+# commands live in the Message model.
+_CE_DYN = {"auth_application_id": "Opt[List[int]]", "acct_application_id": "Opt[List[int]]",
+           "vendor_specific_application_id": "Opt[List[Any:avpobj]]", "result_code": "Opt[int]",
+           "error_message": "Opt[str]", "origin_host": "Opt[bytes]"}
+R.model("CapabilitiesExchangeRequest", dynamic=dict(_CE_DYN, host_ip_address="Opt[List[Any:addr]]"))
+R.model("CapabilitiesExchangeAnswer", dynamic=dict(_CE_DYN, host_ip_address="Opt[List[Any:addr]]"))
+R.assume("ASSUMED (assume_pre of receive_cer/receive_cea): the three application-id list attributes of a CER/CEA object are "
+         "set (the generated __post_init__ assigns [] before assign_attr_from_defs fills them)")
+R.contracts["Node._receive_message"].requires.append(
+    Clause("capabilities-exchange-messages-have-their-class",
+           "implies(msg.header.command_code == 257, "
+           "ite(is_req(msg), isinstance(msg, CapabilitiesExchangeRequest), isinstance(msg, CapabilitiesExchangeAnswer)))"))
+R.assume("C06: a message whose header carries command code 257 is an instance of CapabilitiesExchangeRequest/Answer "
+         "(Message.from_bytes picks the class by code: ground obligations C02.reg/C02.dispatch; the node only handles "
+         "messages produced by from_bytes); attributes read from vendor-specific application id containers are ints")
+
+from pyvc.smt import INT as _INT, BOOL as _BOOL, STR as _STR, app as _app, T as _T, Eq as _Eq, Ite as _Ite, store as _store, \
+    TRUE as _TRUE, seq_concat as _cat, seq_unit as _unit, seq_empty as _sempty
+from pyvc.values import VAny, VInt, VBool, VSetv
+from pyvc.state import Unsupported
+from pyvc import models as _m
+from . import base as _base
+
+_prev_attr_opaque = R.specfns["attr_opaque"]
+
+
+def _has_t(ex, tok, attr):
+    ex.decls.fun("any_hasattr", [_INT, _STR], _BOOL)
+    return _app("any_hasattr", _BOOL, tok, ex.decls.str_lit(attr))
+
+
+def _get_t(ex, tok, attr):
+    ex.decls.fun("any_getattr", [_INT, _STR], _INT)
+    return _app("any_getattr", _INT, tok, ex.decls.str_lit(attr))
+
+
+@R.specfn("attr_opaque")
+def _attr_opaque(ex, st, base, attr, k, where):
+    """attribute of a decoded grouped-AVP container (opaque object): present or AttributeError"""
+    if getattr(base, "tag", None) == "avpobj":
+        has = _has_t(ex, base.t, attr)
+        from pyvc.smt import Not
+        outs = ex.raise_(st.assume(Not(has)), "AttributeError", where)
+        outs += k(st.assume(has), VAny(_get_t(ex, base.t, attr), "avpval"))
+        return outs
+    return _prev_attr_opaque(ex, st, base, attr, k, where)
+
+
+@R.specfn("hasattr_opaque")
+def _hasattr_opaque(ex, st, v, attr):
+    return _has_t(ex, v.t, attr)
+
+
+@R.specfn("any_as_int")
+def _any_as_int(ex, st, v):
+    ex.decls.fun("any_as_int", [_INT], _INT)
+    return VInt(_app("any_as_int", _INT, v.t))
+
+
+def _vs_fold_t(ex, seq, attr):
+    ex.decls.fun("vs_fold", ["(Seq Int)", _STR], _m.SETI)
+    return _app("vs_fold", _m.SETI, seq, ex.decls.str_lit(attr))
+
+
+@R.specfn("vs_fold")
+def _vs_fold(ex, st, seq, attr):
+    """the set of the `attr` values of the containers in a vendor-specific-application-id list that have one;
+    defined by recursion on the list (nil / snoc); the two defining equations are instantiated by vs_nil / vs_snoc"""
+    t, _ = ex.as_seq(st, ex.unwrap(seq))
+    return VSetv(_vs_fold_t(ex, t, attr.lit))
+
+
+@R.specfn("vs_nil")
+def _vs_nil(ex, st, attr):
+    return VBool(_Eq(_vs_fold_t(ex, _sempty("(Seq Int)"), attr.lit), _m.EMPTY_SETI))
+
+
+@R.specfn("vs_snoc")
+def _vs_snoc(ex, st, seq, e, attr):
+    t, _ = ex.as_seq(st, ex.unwrap(seq))
+    e = ex.unwrap(e)
+    a = attr.lit
+    f = _vs_fold_t(ex, t, a)
+    ex.decls.fun("any_as_int", [_INT], _INT)
+    val = _app("any_as_int", _INT, _get_t(ex, e.t, a))
+    return VBool(_Eq(_vs_fold_t(ex, _cat(t, _unit(e.t)), a), _Ite(_has_t(ex, e.t, a), _store(f, val, _TRUE), f)))
+
+
+@R.specfn("node_apps")
+def _node_apps(ex, st, n, which):
+    """the application ids of the registered applications flagged auth (1) / acct (2): an uninterpreted function of the
+    application list and of the id/flag fields (the set comprehension itself is not unfolded)"""
+    n = ex.unwrap(n)
+    apps = ex.read_field(st, n, "applications")
+    items = ex.seq_items(st, apps)
+    flag = "is_auth_application" if ex.unwrap(which).t.s == "1" else "is_acct_application"
+    ids0 = ex.heap_array(st, "Application.application_id$none", _INT, _BOOL)
+    ids = ex.heap_array(st, "Application.application_id", _INT, _INT)
+    fl = ex.heap_array(st, "Application." + flag, _INT, _BOOL)
+    ex.decls.fun("node_apps", ["(Seq Int)", "(Array Int Bool)", "(Array Int Int)", "(Array Int Bool)"], _m.SETI)
+    return VSetv(_app("node_apps", _m.SETI, items, ids0, ids, fl))
+
+
+for _nm, _w in (("auth_application_ids", 1), ("acct_application_ids", 2)):
+    R.contract("Node." + _nm, trusted=True, params={"self": "Node"}, returns="Set[int]", allocates=True,
+               ensures=["setv(result) == node_apps(self, %d)" % _w, "fresh(result)"],
+               note="ABSTRACTION: set(a.application_id for a in self.applications if a.is_*_application) is an "
+                    "uninterpreted function of the application list and the id/flag fields")
+
+R.macro("cer_auth", ["m"], "set_union(setv(some(m.auth_application_id)), "
+                           "vs_fold(some(m.vendor_specific_application_id), 'auth_application_id'))")
+R.macro("cer_acct", ["m"], "set_union(setv(some(m.acct_application_id)), "
+                           "vs_fold(some(m.vendor_specific_application_id), 'acct_application_id'))")
+
+_CE_LISTS = [("lists-set", "has(message, 'auth_application_id') and not is_none(message.auth_application_id) and "
+                           "has(message, 'acct_application_id') and not is_none(message.acct_application_id) and "
+                           "has(message, 'vendor_specific_application_id') and not is_none(message.vendor_specific_application_id)")]
+_READY_MODS = ["*PeerConnection.state", "conn.auth_application_ids", "conn.acct_application_ids", "conn.host_identity",
+               "*Peer.connection", "*Peer.disconnect_reason", "*Peer.last_connect", "*Peer.last_disconnect",
+               "dict:self._half_ready_connections", "dict:self.connections", "dict:self.peer_sockets",
+               "dict:self.socket_peers", "dict:self._peer_waiting_answer", "*Event.flag", "*StoppableThread.stopped",
+               "*Socket.closed", "*list:Peer"]
+
+del R.contracts["Node.receive_cea"]
+R.contract("Node.receive_cea", params={"self": "Node", "conn": "PeerConnection", "message": "CapabilitiesExchangeAnswer"},
+           assume_pre=_CE_LISTS,
+           ensures=[("nothing-sent", "nothing_sent(conn)"),
+                    ("any-other-result-closes-the-connection",
+                     "implies(not (old(has(message, 'result_code')) and old(message.result_code) == 2001), "
+                     "in_no_table(self, conn) and conn.g_close_calls == old(conn.g_close_calls) + 1 and "
+                     "conn.g_close_reason == %d and "
+                     "ite(old(conn.ident in self.peer_sockets), old(self.peer_sockets[conn.ident]).closed and "
+                     "conn.state == %d, conn.state == old(conn.state)))" % (R_CER_REJECTED, CLOSED)),
+                    ("ready-only-on-2001",
+                     "implies(conn.state == %d and old(conn.state) != %d, "
+                     "old(has(message, 'result_code')) and old(message.result_code) == 2001)" % (READY, READY)),
+                    ("2001-makes-the-connection-ready-with-the-shared-applications",
+                     "implies(old(has(message, 'result_code')) and old(message.result_code) == 2001, "
+                     "conn.state == %d and conn.g_close_calls == old(conn.g_close_calls) and "
+                     "setv(conn.auth_application_ids) == set_inter(node_apps(self, 1), old(cer_auth(message))) and "
+                     "setv(conn.acct_application_ids) == set_inter(node_apps(self, 2), old(cer_acct(message))) and "
+                     "conn.host_identity == utf8dec(some(old(message.origin_host))))" % READY)],
+           raises=[Raise("Exception", "True", "may")],
+           ensures_exc={"Exception": [("nothing-sent-when-failing", "nothing_sent(conn)")]},
+           ghost_modifies=["conn.g_close_calls", "conn.g_close_reason"],
+           modifies=_READY_MODS, props=["C06"])
+for _i in (0,):
+    R.loop("Node.receive_cea", _i,
+           invariants=[("auth-so-far", "setv(cer_auth_apps) == set_union(setv(some(message.auth_application_id)), "
+                                       "vs_fold(done, 'auth_application_id'))"),
+                       ("acct-so-far", "setv(cer_acct_apps) == set_union(setv(some(message.acct_application_id)), "
+                                       "vs_fold(done, 'acct_application_id'))")],
+           hints=["vs_snoc(done, cur, 'auth_application_id')", "vs_snoc(done, cur, 'acct_application_id')",
+                  "vs_nil('auth_application_id')", "vs_nil('acct_application_id')"])
+
+# ---- receive_cer -------------------------------------------------------------------------------------------------
+R.model("Node", fields={"vendor_ids": "Set[int]"})
+R.macro("cer_host", ["m"], "lower(utf8dec(some(m.origin_host)))")
+R.macro("cer_relay", ["m"], "4294967295 in setv(some(m.auth_application_id)) or 4294967295 in setv(some(m.acct_application_id))")
+R.macro("cer_shares", ["n", "m"], "not set_empty(set_inter(node_apps(n, 1), cer_auth(m))) or "
+                                  "not set_empty(set_inter(node_apps(n, 2), cer_acct(m)))")
+R.macro("cea", ["c"], "items(out(c))[old(len(out(c)))]")
+
+
+@R.specfn("int_list")
+def _int_list(ex, st, v):
+    """view an opaque attribute value as the list of ints that was stored there"""
+    from pyvc.values import VList, K_INT
+    v = ex.unwrap(v)
+    return VList(v.t, K_INT)
+
+
+_old_cer = R.contracts.pop("Node.receive_cer")
+R.contract("Node.receive_cer", params={"self": "Node", "conn": "PeerConnection", "message": "CapabilitiesExchangeRequest"},
+           ghost={"o": "Opt[bytes]"},
+           ghost_out={"rivals": ("other_connections", "List[PeerConnection]")},
+           requires=_old_cer.requires, assume_pre=_CE_LISTS,
+           entry_facts=["len(some(message.auth_application_id)) >= 0", "len(some(message.acct_application_id)) >= 0",
+                        "len(some(message.vendor_specific_application_id)) >= 0", "len(self.applications) >= 0"],
+           ensures=_old_cer.ensures + [
+               ("cea-carries-the-node-identity",
+                "cea(conn).origin_host == utf8(self.origin_host) and cea(conn).origin_realm == utf8(self.realm_name) and "
+                "cea(conn).host_ip_address == self.ip_addresses and cea(conn).vendor_id == self.vendor_id and "
+                "cea(conn).product_name == self.product_name and "
+                "setv(int_list(cea(conn).supported_vendor_id)) == setv(self.vendor_ids) and "
+                "setv(int_list(cea(conn).auth_application_id)) == node_apps(self, 1) and "
+                "setv(int_list(cea(conn).acct_application_id)) == node_apps(self, 2)"),
+               ("unknown-peer-3010-and-closing",
+                "implies(not old(cer_host(message) in self.peers), cea(conn).result_code == 3010 and conn.state == %d)" % CLOSING),
+               ("3010-only-for-an-unknown-peer",
+                "implies(cea(conn).result_code == 3010, not old(cer_host(message) in self.peers))"),
+               ("result-is-one-of-the-specified", "cea(conn).result_code == 2001 or cea(conn).result_code == 3010 or "
+                                                  "cea(conn).result_code == 5010 or cea(conn).result_code == 4003"),
+               ("election-lost-only-against-a-rival-connection",
+                "implies(cea(conn).result_code == 4003, old(cer_host(message) in self.peers) and conn.state == %d and "
+                "len(rivals) > 0 and rivals[0].origin_host == old(cer_host(message)))" % CLOSING),
+               ("known-peer-without-common-application-5010-not-ready",
+                "implies(old(cer_host(message) in self.peers) and len(rivals) == 0 and "
+                "not old(cer_shares(self, message)) and not old(cer_relay(message)), "
+                "cea(conn).result_code == 5010 and conn.state == old(conn.state))"),
+               ("known-peer-sharing-an-application-or-relay-2001-ready",
+                "implies(old(cer_host(message) in self.peers) and len(rivals) == 0 and "
+                "(old(cer_shares(self, message)) or old(cer_relay(message))), "
+                "cea(conn).result_code == 2001 and conn.state == %d and conn.host_identity == old(cer_host(message)) and "
+                "setv(conn.auth_application_ids) == set_inter(node_apps(self, 1), old(cer_auth(message))) and "
+                "setv(conn.acct_application_ids) == set_inter(node_apps(self, 2), old(cer_acct(message))))" % READY),
+               ("ready-only-with-2001", "implies(conn.state == %d and old(conn.state) != %d, cea(conn).result_code == 2001)"
+                % (READY, READY))],
+           raises=_old_cer.raises, ensures_exc={k: list(v) for k, v in _old_cer.ensures_exc.items()},
+           ghost_modifies=_old_cer.ghost_modifies,
+           modifies=_old_cer.modifies + ["*StoppableThread.stopped", "*list:Peer",
+                                         "dict:self._peer_waiting_answer[cer_host(message)] "
+                                         "if cer_host(message) in self._peer_waiting_answer"], props=["C06"])
+R.loop("Node.receive_cer", 0, invariants=[("conn-closed-or-untouched", "conn.state == old(conn.state) or conn.state == %d" % CLOSED)],
+       modifies=["*PeerConnection.state", "*StoppableThread.stopped"])
+R.loop("Node.receive_cer", 1,
+       invariants=[("auth-so-far", "setv(cer_auth_apps) == set_union(setv(some(message.auth_application_id)), "
+                                   "vs_fold(done, 'auth_application_id'))"),
+                   ("acct-so-far", "setv(cer_acct_apps) == set_union(setv(some(message.acct_application_id)), "
+                                   "vs_fold(done, 'acct_application_id'))")],
+       hints=["vs_snoc(done, cur, 'auth_application_id')", "vs_snoc(done, cur, 'acct_application_id')",
+              "vs_nil('auth_application_id')", "vs_nil('acct_application_id')"])
+
+
+@R.specfn("subscript_opaque")
+def _subscript_opaque(ex, st, base, idx, k, where):
+    """(family, text)[1] of a decoded address: an arbitrary string; other opaque subscripts are not modelled"""
+    from pyvc.values import VStr
+    if getattr(base, "tag", None) == "addr":
+        ex.decls.fun("addr_text", [_INT], _STR)
+        return k(st, VStr(_app("addr_text", _STR, base.t)))
+    raise Unsupported(f"subscript of an opaque value at {where}")
